@@ -67,6 +67,7 @@ type Conn struct {
 	// client side
 	pending  []*pendingPkt
 	AckMode  int
+	Redial   bool // an auto-reconnecting client: dials again as soon as it reads the broker's shutdown DISCONNECT
 	unacked  []uint16 // PUBLISH q1/q2 pids received and not yet acknowledged (manual mode)
 	unackedQ []byte
 	pubrecSent map[uint16]bool
